@@ -791,18 +791,21 @@ def migrate_v0_to_v1(old_config_dir, skip_confirm=False):
     try:
         os.makedirs(tally_dir, exist_ok=True)
 
-        # Move config directory
-        new_config = os.path.join(tally_dir, 'config')
-        print(f"  Moving config/ -> tally/config/")
-        shutil.move(old_config_dir, new_config)
-
-        # Move data and output directories if they exist
+        # Move data and output directories if they exist. They go first and config/ goes
+        # last: the budget is located through its config directory, so if this is interrupted
+        # (or a move fails) the legacy layout is still detected and running the migration
+        # again completes it - moving config/ first would strand data/ and output/.
         for subdir in ['data', 'output']:
             old_path = os.path.abspath(subdir)
             if os.path.isdir(old_path):
                 new_path = os.path.join(tally_dir, subdir)
                 print(f"  Moving {subdir}/ -> tally/{subdir}/")
                 shutil.move(old_path, new_path)
+
+        # Move config directory
+        new_config = os.path.join(tally_dir, 'config')
+        print(f"  Moving config/ -> tally/config/")
+        shutil.move(old_config_dir, new_config)
 
         # Write schema version marker
         schema_file = os.path.join(new_config, '.tally-schema')
